@@ -49,6 +49,7 @@ def shape_fill(c, **kw):
         r["run"] = {"ran": False, "kind": "none", "used": 0, "panic": ""}
         r["machine"] = {"exit": "none", "w7": [], "panic": ""}
         r["invoke"] = {"ran": False, "exit": "none", "w7": [], "gasleft": 0, "panic": ""}
+        r["aux"] = {"ran": False, "pages": "none", "poke": "none", "peek": "none", "expunge": "none", "same": False, "codes": [], "panic": ""}
     r.update(kw)
     return r
 
@@ -60,10 +61,11 @@ def run_cases(ctx, binp, cases, name, confirm=True):
     with open(casep, "w") as f:
         f.write("\n".join(json.dumps(c) for c in cases) + "\n")
     open(tracep, "w").close()
-    skip, restarts = 0, 0
+    skip, restarts, careful = 0, 0, False
     abnormal = []
     while skip < len(cases):
-        r = vf.run_driver(ctx, binp, "TestVerifBlob", env={"VF_CASES": casep, "VF_OUT": tracep, "VF_SKIP": skip, "VF_WATCHDOG_S": 30 if confirm else 90},
+        r = vf.run_driver(ctx, binp, "TestVerifBlob", env={"VF_CASES": casep, "VF_OUT": tracep, "VF_SKIP": skip, "VF_WATCHDOG_S": 30 if confirm else 90,
+                                                           "VF_FLUSH_EVERY": 1 if careful else 64},
                           timeout=2400, allow_fail=True)
         lines = vf.read_lines(tracep)
         if r.returncode == 0:
@@ -73,7 +75,10 @@ def run_cases(ctx, binp, cases, name, confirm=True):
         if r.returncode == 3 and len(lines) > skip:          # hang / heap record written by the driver itself
             abnormal.append(len(lines) - 1)
             skip = len(lines)
-        else:                                                # the process died while running case len(lines)
+        elif not careful:                                    # the process died: records are buffered, so re-run from the
+            careful = True                                   # last one on disk, flushing after every case, to find the culprit
+            skip = len(lines)
+        else:                                                # died in careful mode: the culprit is case len(lines)
             idx = len(lines)
             if idx >= len(cases):
                 raise vf.Infra("driver failed after the last case rc=%d:\n%s" % (r.returncode, (r.stdout + r.stderr)[-3000:]))
@@ -84,9 +89,10 @@ def run_cases(ctx, binp, cases, name, confirm=True):
                 f.write(json.dumps(shape_fill(cases[idx], id=idx, died=msg or "died rc=%d" % r.returncode)) + "\n")
             abnormal.append(idx)
             skip = idx + 1
+            careful = False
         restarts += 1
-        if restarts > 25:
-            raise vf.Infra("driver restarted more than 25 times")
+        if restarts > 40:
+            raise vf.Infra("driver restarted more than 40 times")
     lines = vf.read_lines(tracep)
     if confirm:
         for idx in abnormal:                                 # DESIGN 4.1: only if the persisted case does it again
@@ -127,10 +133,20 @@ def run(ctx):
         gen = [json.loads(ln) for ln in vf.read_lines(casep0)]
         gen.sort(key=lambda c: json.dumps(c, sort_keys=True))
         base = [c for c in gen if c["tag"] in ("valid", "cutinstr", "target", "mask")]
-        cases = gen + flips(ctx, base, 2200 if ctx.quick else 190000)
+        cases = gen + flips(ctx, base, 2200 if ctx.quick else 150000)
         if "sbrk_eager_alloc" not in ctx.known_slugs():
             pass   # nothing to steer: the generator holds a single large-sbrk case
-    lines = run_cases(ctx, binp, cases, "blob")
+    if ctx.quick:   # the largest declared sizes once, not per argument length
+        cases = [c for c in cases if not (c["kind"] == "std" and c["al"] >= 4096 and len(c["blob"]) >= 8
+                                          and c["blob"][6] + 256 * c["blob"][7] >= 4096)]
+    # several driver processes, each with its own slice (interleaved so that the heavy cases spread out)
+    nproc = 2 if ctx.quick else 6
+    parts = [cases[k::nproc] for k in range(nproc)]
+    import concurrent.futures as cf
+    with cf.ThreadPoolExecutor(nproc) as ex:
+        outs = list(ex.map(lambda kp: run_cases(ctx, binp, kp[1], "blob%d" % kp[0]), enumerate(parts)))
+    cases = [c for p in parts for c in p]
+    lines = [ln for o in outs for ln in o]
     ctx.cov["evaluations"] = len(lines)
     seen = set()
     tags = {}
@@ -155,5 +171,5 @@ def run(ctx):
         r["blob"] = r["blob"][:24]
         return r
     ctx.cov["samples"] = [slim(json.loads(x)) for x in (lines[:2] + lines[-2:])]
-    vf.validate_trace(ctx, "ProgramBlob_Trace", lines, shard=1500 if ctx.quick else 8000, timeout=1800, heap="3g",
+    vf.validate_trace(ctx, "ProgramBlob_Trace", lines, shard=700 if ctx.quick else 8000, timeout=1800, heap="3g",
                       par=6 if ctx.quick else 12, what="program blob handling outside the defined outcomes")
